@@ -337,7 +337,8 @@ def replay_roundtrip(args):
 
     def mk(name):
         if name not in vals:
-            vals[name] = float(len(vals) + 1) + 0.125
+            # distinct values of both signs (errors of cross sections are signed linear combinations)
+            vals[name] = (float(len(vals) + 1) + 0.125) * (-1 if len(vals) % 3 == 2 else 1)
         return vals[name]
 
     shape = [tuple(s) for s in args["shape"]]
